@@ -186,6 +186,18 @@ func decodeEdit(data []byte) (Edit, error) {
 	}
 	edit := Edit{Type: EditType(data[len(editMagic)])}
 	pos := len(editMagic) + 1
+	// uvarint reads one uvarint at pos. An overlong encoding (binary.Uvarint reports
+	// n < 0) marks the record malformed instead of moving pos backwards.
+	malformed := false
+	uvarint := func() uint64 {
+		v, n := binary.Uvarint(data[pos:])
+		if n < 0 {
+			malformed = true
+			return 0
+		}
+		pos += n
+		return v
+	}
 	switch edit.Type {
 	case EditAddFile, EditDeleteFile:
 		// EditAddFile / EditDeleteFile Data Format:
@@ -195,26 +207,20 @@ func decodeEdit(data []byte) (Edit, error) {
 		// | CreatedAt (v)  | ValueSize (v)  | Ingest (1B)    |
 		// +----------------+----------------+
 		// (v) denotes Uvarint, (lv) denotes Length-prefixed Bytes (Uvarint length + bytes)
-		level, n := binary.Uvarint(data[pos:])
-		pos += n
-		fileID, n := binary.Uvarint(data[pos:])
-		pos += n
-		size, n := binary.Uvarint(data[pos:])
-		pos += n
+		level := uvarint()
+		fileID := uvarint()
+		size := uvarint()
 		smallest, n := readBytes(data[pos:])
 		pos += n
 		largest, n := readBytes(data[pos:])
 		pos += n
-		created, n := binary.Uvarint(data[pos:])
-		pos += n
+		created := uvarint()
 		var valueSize uint64
 		if pos <= len(data) {
 			if pos == len(data) {
 				valueSize = 0
 			} else {
-				vs, consumed := binary.Uvarint(data[pos:])
-				pos += consumed
-				valueSize = vs
+				valueSize = uvarint()
 			}
 		}
 		var ingest bool
@@ -241,10 +247,8 @@ func decodeEdit(data []byte) (Edit, error) {
 		// | LogSegment (v) | LogOffset (v)  |
 		// +----------------+----------------+
 		// (v) denotes Uvarint
-		seg, n := binary.Uvarint(data[pos:])
-		pos += n
-		off, n := binary.Uvarint(data[pos:])
-		pos += n
+		seg := uvarint()
+		off := uvarint()
 		if pos > len(data) {
 			return Edit{}, fmt.Errorf("manifest log pointer truncated")
 		}
@@ -257,12 +261,9 @@ func decodeEdit(data []byte) (Edit, error) {
 		// +----------------+----------------+----------------+
 		// (v) denotes Uvarint
 		if pos < len(data) {
-			bucket64, n := binary.Uvarint(data[pos:])
-			pos += n
-			fid64, n := binary.Uvarint(data[pos:])
-			pos += n
-			offset, n := binary.Uvarint(data[pos:])
-			pos += n
+			bucket64 := uvarint()
+			fid64 := uvarint()
+			offset := uvarint()
 			if pos > len(data) {
 				return Edit{}, fmt.Errorf("manifest value log head truncated")
 			}
@@ -280,10 +281,8 @@ func decodeEdit(data []byte) (Edit, error) {
 		// +----------------+----------------+
 		// (v) denotes Uvarint
 		if pos < len(data) {
-			bucket64, n := binary.Uvarint(data[pos:])
-			pos += n
-			fid64, n := binary.Uvarint(data[pos:])
-			pos += n
+			bucket64 := uvarint()
+			fid64 := uvarint()
 			if pos > len(data) {
 				return Edit{}, fmt.Errorf("manifest value log delete truncated")
 			}
@@ -299,12 +298,9 @@ func decodeEdit(data []byte) (Edit, error) {
 		// +----------------+----------------+----------------+----------+
 		// (v) denotes Uvarint
 		if pos < len(data) {
-			bucket64, n := binary.Uvarint(data[pos:])
-			pos += n
-			fid64, n := binary.Uvarint(data[pos:])
-			pos += n
-			offset, n := binary.Uvarint(data[pos:])
-			pos += n
+			bucket64 := uvarint()
+			fid64 := uvarint()
+			offset := uvarint()
 			if pos > len(data) {
 				return Edit{}, fmt.Errorf("manifest value log update truncated")
 			}
@@ -330,22 +326,14 @@ func decodeEdit(data []byte) (Edit, error) {
 		// +-----------------+-----------------+-----------------+-----------------+
 		// (v) denotes Uvarint
 		if pos <= len(data) {
-			groupID, n := binary.Uvarint(data[pos:])
-			pos += n
-			seg, n := binary.Uvarint(data[pos:])
-			pos += n
-			off, n := binary.Uvarint(data[pos:])
-			pos += n
-			appliedIdx, n := binary.Uvarint(data[pos:])
-			pos += n
-			appliedTerm, n := binary.Uvarint(data[pos:])
-			pos += n
-			committed, n := binary.Uvarint(data[pos:])
-			pos += n
-			snapIdx, n := binary.Uvarint(data[pos:])
-			pos += n
-			snapTerm, n := binary.Uvarint(data[pos:])
-			pos += n
+			groupID := uvarint()
+			seg := uvarint()
+			off := uvarint()
+			appliedIdx := uvarint()
+			appliedTerm := uvarint()
+			committed := uvarint()
+			snapIdx := uvarint()
+			snapTerm := uvarint()
 			if pos > len(data) {
 				return Edit{}, fmt.Errorf("manifest raft pointer truncated")
 			}
@@ -354,29 +342,25 @@ func decodeEdit(data []byte) (Edit, error) {
 			var segmentIndex uint64
 			var truncatedOffset uint64
 			if pos < len(data) {
-				truncatedIdx, n = binary.Uvarint(data[pos:])
-				pos += n
+				truncatedIdx = uvarint()
 				if pos > len(data) {
 					return Edit{}, fmt.Errorf("manifest raft pointer truncated index overflow")
 				}
 			}
 			if pos < len(data) {
-				truncatedTerm, n = binary.Uvarint(data[pos:])
-				pos += n
+				truncatedTerm = uvarint()
 				if pos > len(data) {
 					return Edit{}, fmt.Errorf("manifest raft pointer truncated term overflow")
 				}
 			}
 			if pos < len(data) {
-				segmentIndex, n = binary.Uvarint(data[pos:])
-				pos += n
+				segmentIndex = uvarint()
 				if pos > len(data) {
 					return Edit{}, fmt.Errorf("manifest raft pointer segment index overflow")
 				}
 			}
 			if pos < len(data) {
-				truncatedOffset, n = binary.Uvarint(data[pos:])
-				pos += n
+				truncatedOffset = uvarint()
 				if pos > len(data) {
 					return Edit{}, fmt.Errorf("manifest raft pointer truncated offset overflow")
 				}
@@ -405,8 +389,7 @@ func decodeEdit(data []byte) (Edit, error) {
 		// +-----------------------+------------+----------------+-------------------+------------------+
 		// (v) denotes Uvarint, (lv) denotes Length-prefixed Bytes (Uvarint length + bytes)
 		if pos <= len(data) {
-			regionID, n := binary.Uvarint(data[pos:])
-			pos += n
+			regionID := uvarint()
 			if pos > len(data) {
 				return Edit{}, fmt.Errorf("manifest region edit truncated after id")
 			}
@@ -426,10 +409,8 @@ func decodeEdit(data []byte) (Edit, error) {
 			pos += n
 			end, n := readBytes(data[pos:])
 			pos += n
-			version, n := binary.Uvarint(data[pos:])
-			pos += n
-			confVer, n := binary.Uvarint(data[pos:])
-			pos += n
+			version := uvarint()
+			confVer := uvarint()
 			if pos > len(data) {
 				return Edit{}, fmt.Errorf("manifest region edit truncated epoch")
 			}
@@ -440,18 +421,18 @@ func decodeEdit(data []byte) (Edit, error) {
 			}
 			peersCount := uint64(0)
 			if pos < len(data) {
-				peersCount, n = binary.Uvarint(data[pos:])
-				pos += n
+				peersCount = uvarint()
 			}
 			if pos > len(data) {
 				return Edit{}, fmt.Errorf("manifest region edit truncated peer count")
 			}
+			if peersCount > uint64(len(data)-pos) {
+				return Edit{}, fmt.Errorf("manifest region edit peer count exceeds payload")
+			}
 			peers := make([]PeerMeta, 0, peersCount)
 			for i := uint64(0); i < peersCount; i++ {
-				storeID, n := binary.Uvarint(data[pos:])
-				pos += n
-				peerID, n := binary.Uvarint(data[pos:])
-				pos += n
+				storeID := uvarint()
+				peerID := uvarint()
 				if pos > len(data) {
 					return Edit{}, fmt.Errorf("manifest region edit truncated peer meta")
 				}
@@ -472,6 +453,9 @@ func decodeEdit(data []byte) (Edit, error) {
 			}
 		}
 	}
+	if malformed {
+		return Edit{}, fmt.Errorf("manifest entry has an overlong varint")
+	}
 	return edit, nil
 }
 
@@ -483,9 +467,9 @@ func appendBytes(dst []byte, b []byte) []byte {
 func readBytes(data []byte) ([]byte, int) {
 	length, n := binary.Uvarint(data)
 	pos := n
-	end := pos + int(length)
-	if n <= 0 || end > len(data) {
+	if n <= 0 || length > uint64(len(data)-pos) {
 		return nil, len(data)
 	}
+	end := pos + int(length)
 	return data[pos:end], n + int(length)
 }
